@@ -196,7 +196,12 @@ class MultiAgentReplayBuffer:
             return np.array(value) if not isinstance(value, np.ndarray) else value
 
         results = [[] for _ in range(len(args))]
-        num_entries = len(next(iter(args[0].values())))
+        first_value = next(iter(args[0].values()))
+        if isinstance(first_value, dict):
+            first_value = next(iter(first_value.values()))
+        elif isinstance(first_value, tuple):
+            first_value = first_value[0]
+        num_entries = len(first_value)
         for i in range(num_entries):
             for j, arg in enumerate(args):
                 new_dict = {}
